@@ -66,6 +66,10 @@ def _merge_stubs_members(obj: Module | Class, stubs: Module | Class) -> None:
             if stub_member.is_alias:
                 continue
             obj_member = obj.get_member(member_name)
+            if obj_member is stub_member:
+                # Already moved into the concrete module by a previous merge of the same stubs
+                # (top-level modules are merged when they are loaded, and again as a package).
+                continue
             with suppress(AliasResolutionError, CyclicAliasError):
                 # An object's canonical location can differ from its equivalent stub location.
                 # Devs usually declare stubs at the public location of the corresponding object,
